@@ -35,7 +35,7 @@ ASSUMPTIONS = ['fractions.Fraction arithmetic and sympy.expand are correct',
                '(monitored; deviations are reported in the evidence as float_lines_outside_symbolic)']
 TIERS = {
     'quick': {'shards': 14, 'random': 4200, 'timeout': 600, 'min_cases': 3000,
-              'require_branches': ['symbolic:identities-proved', 'requery-after-control-point-assignment']},
+              'require_branches': ['symbolic:identities-proved', 'requery-after-control-point-assignment', 'reversed-after-length']},
     'thorough': {'shards': 14, 'random': 200000, 'timeout': 3000, 'min_cases': 100000,
                  'require_branches': ['symbolic:identities-proved']},
 }
@@ -379,7 +379,9 @@ def cases(ctx):
             cls = 'generic'
         pts = _ctrl_points(rng, deg, cls)
         ts = [0, 1, 0.0, 1.0, rng.randint(0, 16) / 16.0, rng.uniform(0, 1), rng.uniform(-0.25, 1.25),
-              rng.uniform(0, 1)]
+              rng.uniform(0, 1),
+              # close to, but not at, the ends of the parameter interval (from both sides)
+              1 - 10.0 ** rng.uniform(-13, -4), 10.0 ** rng.uniform(-13, -4), 1 + 10.0 ** rng.uniform(-13, -4)]
         scalar = rng.choice(['py', 'py', 'np'])
         yield {'kind': 'num', 'deg': deg, 'pts': [[z.real, z.imag] for z in pts], 'ts': ts, 'scalar': scalar,
                'cls': ['deg%d' % deg, 'ctrl:' + cls, 'scalar:' + scalar]}
@@ -441,6 +443,16 @@ def run_case(ctx, case):
         P.bez2poly(seg)
         if seg.poly().order >= 1:
             P.poly2bez(seg.poly())
+    # a copy made after the original has answered other queries (length caches per-object state)
+    ctx.branch('reversed-after-length')
+    seg.length()
+    rev = seg.reversed()
+    rev.points(ts)
+    rev.poly()
+    for t in ts[4:]:
+        rev.point(t)
+        rev.derivative(t, 1)
+    P.bez2poly(rev)
     seg.end = seg.end + shift
     seg.start = seg.start - shift
     seg.poly()
